@@ -249,6 +249,20 @@ func (v *vstore) sink(i int, rnd uint32) {
 	vsetRand(0)
 	v.tr.op("sink", ss("3", i64(int64(i)), i64(v.now), a0, u(uint64(rnd))), v.notes)
 	v.checkNotes("sink")
+	// the matching reason: whatever else leaves while this event is applied leaves under capacity pressure (EVICTED);
+	// the event's own entry may be reported REMOVED (a REMOVE event), EXPIRED (its deadline had passed on arrival) or EVICTED
+	for j := 0; j+2 < len(v.notes); j += 3 {
+		var k int
+		fmt.Sscan(v.notes[j], &k)
+		reason := v.notes[j+2]
+		own := it.entry != nil && it.entry.key == k
+		switch {
+		case !own && reason != "1":
+			v.tr.viol(fmt.Sprintf("C05: key %d was displaced by capacity pressure (while an event of another key was applied at %d) but reported with reason %s instead of EVICTED", k, v.now, reason))
+		case own && reason == "0" && it.code != REMOVE:
+			v.tr.viol(fmt.Sprintf("C05: key %d reported REMOVED while an event that is not its REMOVE event was applied", k))
+		}
+	}
 	if len(v.pending) == 0 {
 		v.checkDrained()
 	}
